@@ -575,6 +575,18 @@ theorem C17_seq_counterexample_sf_opts_after_append :
     (WTs wSfOptsAfterAppend.ss (getOk (fromAST wSfOptsAfterAppend.ss)) = true) ∧
     isOk wSfOptsAfterAppend.run = true ∧ WTs wSfOptsAfterAppend.ss (getOk wSfOptsAfterAppend.run) = false := by decide
 
+/-- `array_to_append` rewrites the argument of `Assignments[0]` only: a second assignment that uses
+    the option's argument (declared through `add_assignment`) keeps the old name and type -/
+theorem C17_seq_counterexample_only_first_assignment :
+    (WTs wAddAssignmentAppend.ss (getOk (fromAST wAddAssignmentAppend.ss)) = true) ∧
+    isOk wAddAssignmentAppend.run = true ∧ WTs wAddAssignmentAppend.ss (getOk wAddAssignmentAppend.run) = false := by decide
+
+/-- `promote_options_to_constructor` declares `opt.Args[0]` only: after `map_to_index` the promoted
+    assignment uses the option's second argument, which the constructor does not declare -/
+theorem C17_seq_counterexample_promote_first_argument_only :
+    (WTs wMapIndexPromote.ss (getOk (fromAST wMapIndexPromote.ss)) = true) ∧
+    isOk wMapIndexPromote.run = true ∧ WTs wMapIndexPromote.ss (getOk wMapIndexPromote.run) = false := by decide
+
 /-! ## frame at the level of the whole rewriter -/
 
 /-- the property at full strength for the smallest case — no rule at all: nothing changes -/
